@@ -49,6 +49,25 @@ def has_quant(e, _memo={}):
     return r
 
 
+def qf_weaken(e, pos):
+    """a quantifier-free consequence of e (pos) / a quantifier-free formula implied by... dually for negative polarity:
+    quantified sub-formulas are replaced by True in positive and False in negative positions"""
+    if not has_quant(e):
+        return e
+    if z3.is_quantifier(e) or not z3.is_app(e):
+        return z3.BoolVal(pos)
+    k = e.decl().kind()
+    if k == z3.Z3_OP_AND:
+        return z3.And(*[qf_weaken(c, pos) for c in e.children()])
+    if k == z3.Z3_OP_OR:
+        return z3.Or(*[qf_weaken(c, pos) for c in e.children()])
+    if k == z3.Z3_OP_NOT:
+        return z3.Not(qf_weaken(e.arg(0), not pos))
+    if k == z3.Z3_OP_IMPLIES:
+        return z3.Implies(qf_weaken(e.arg(0), not pos), qf_weaken(e.arg(1), pos))
+    return z3.BoolVal(pos)
+
+
 class Obligation:
     def __init__(self, name, pc, cond, info=None):
         self.name, self.pc, self.cond, self.info = name, pc, cond, info or {}
@@ -86,9 +105,14 @@ class LoopState:
         self.ex, self.env, self.pre_env, self.k, self.n, self.seqs = ex, env, pre_env, k, n, seqs
 
     def loc(self, v):
+        if v not in self.env:
+            # the sidecar invariant is keyed to a local of the function: a renamed local leaves the function outside the contract (undecided), not broken
+            raise OutsideSubset(f"the loop contract names the local variable '{v}', which this version of the function does not have")
         return self.env[v]
 
     def pre(self, v):
+        if v not in self.pre_env:
+            raise OutsideSubset(f"the loop contract names the local variable '{v}', which this version of the function does not have")
         return self.pre_env[v]
 
 
@@ -139,8 +163,7 @@ class Exec(ExprMixin, CallMixin):
             self.solver = z3.Solver()
             self.solver.set("timeout", self.timeout_ms)
             for p in self.pc:
-                if not has_quant(p):
-                    self.solver.add(p)
+                self.solver.add(p if not has_quant(p) else qf_weaken(p, True))
             self.stats["paths"] += 1
             self.journal = []          # mutations of objects that outlive the path (inputs) are undone at its end
             try:
@@ -683,6 +706,23 @@ class Exec(ExprMixin, CallMixin):
                 self.block(st.orelse, fr)
             return
         spec, ordn = self.loop_spec(st, fr)
+        if spec is None and isinstance(it, RangeObj) and it.step == 1 and isinstance(it.start, int):
+            # `for _ in range(small symbolic n)`: fork over n = 0..3 and unroll (larger n: outside subset)
+            stop = it.stop
+            for n in range(0, 4):
+                if self.branch(stop <= it.start + n if n == 0 else stop == it.start + n):
+                    it = RangeObj(it.start, it.start + n, 1)
+                    for x in self.to_pylist(it):
+                        self.assign(st.target, x, fr)
+                        try:
+                            self.block(st.body, fr)
+                        except BreakEx:
+                            return
+                        except ContinueEx:
+                            continue
+                    self.block(st.orelse, fr)
+                    return
+            raise OutsideSubset(f"loop #{ordn} of {fr.finfo.qualname}: symbolic range longer than 3 without an invariant (stop = {str(z3.simplify(stop))[:120]})")
         if spec is None:
             raise OutsideSubset(f"loop #{ordn} of {fr.finfo.qualname} over an abstract sequence has no invariant")
         self.abstract_loop(st, fr, spec, ordn, it)
